@@ -95,6 +95,14 @@ def unique_identifier(model: Model, C: ClassInfo) -> Tuple[bool, str]:
         incs = [st for st in post.node.body if isinstance(st, ast.AugAssign) and isinstance(st.op, ast.Add)
                 and ast.unparse(st.target) == f"{cname}.{counter}" and isinstance(st.value, ast.Constant)
                 and isinstance(st.value.value, int) and st.value.value > 0]
+        tgt_txt = f"{cname}.{counter}"
+        for st in post.node.body:
+            # ``Cls._n = Cls._n + 1`` / ``Cls._n = 1 + Cls._n``
+            if isinstance(st, ast.Assign) and len(st.targets) == 1 and ast.unparse(st.targets[0]) == tgt_txt and isinstance(st.value, ast.BinOp) and isinstance(st.value.op, ast.Add):
+                a_, b_ = st.value.left, st.value.right
+                for x_, y_ in ((a_, b_), (b_, a_)):
+                    if ast.unparse(x_) == tgt_txt and isinstance(y_, ast.Constant) and isinstance(y_.value, int) and y_.value > 0:
+                        incs.append(st)
         if len(incs) == 1:
             return True, n
         why = f"{post.qualname} does not increment {cname}.{counter} unconditionally"
@@ -634,6 +642,13 @@ def clears_after_or_neutral(model: Model, writer: FunctionInfo, node: ast.AST, m
         # the statement itself, or a statement the syntax normaliser derived from it (derived nodes carry the position of their source)
         return n is node or (pos(n) == pos(node) and pos(n)[0] is not None)
 
+    def inside_node(n) -> bool:
+        """``n`` is a call written inside the statement (``return self._helper(<the writing call>)``: the argument is evaluated before the helper is entered)"""
+        a, b = pos(n), pos(node)
+        if None in a or None in b:
+            return False
+        return (b[0], b[1]) <= (a[0], a[1]) and (a[2], a[3]) <= (b[2], b[3])
+
     exit_fns, exit_classes = exit_clearing_managers(model, memo)
 
     def exit_clears(e: Event) -> bool:
@@ -653,6 +668,10 @@ def clears_after_or_neutral(model: Model, writer: FunctionInfo, node: ast.AST, m
                 seen[0] += 1
                 if not neutral(e, cond):
                     state = "dirty"
+            elif e.kind == "enter-local" and e.node is not None and inside_node(e.node):
+                # the statement hands the result of the writing call to a helper that is read in place: the write happened before the helper starts
+                seen[0] += 1
+                state = "dirty"
                 # the same statement may also be a clearing call (x = f() where f clears): handled below
             if is_clear(e) and not is_node(e.node):
                 if e.kind == "with":
@@ -779,6 +798,25 @@ def h1(model: Model, rep: Report, cg: CallGraph, ef: Effects):
                 n_call += 1
                 construct = f"{f.qualname}[calls {hit[0].qualname} which changes state read by {M.qualname}]"
                 ok, why = clears_after_or_neutral(model, f, stmt, M)
+                if not ok and is_private_helper(f):
+                    # the call sits in a helper whose statements are part of its callers (a decide / apply split): the invalidation may follow in the caller
+                    from .common import syntactic_callers
+                    callers_, work_, seen_ = [], [f], set()
+                    while work_:
+                        g_ = work_.pop()
+                        for c_ in syntactic_callers(model, g_):
+                            if c_ in seen_:
+                                continue
+                            seen_.add(c_)
+                            (work_ if is_private_helper(c_) else callers_).append(c_)
+                    if callers_:
+                        verdicts_ = []
+                        for c_ in callers_:
+                            sites_ = [x for x in ast.walk(c_.node) if isinstance(x, ast.Call) and isinstance(x.func, ast.Attribute) and x.func.attr == f.name]
+                            for site_ in sites_:
+                                verdicts_.append(clears_after_or_neutral(model, c_, _enclosing_stmt(c_.node, site_), M))
+                        if verdicts_ and all(v_[0] for v_ in verdicts_):
+                            ok, why = True, ""
                 rep.check(ok, "C03.H1", construct, f"{f.module.relpath}:{cs.node.lineno}", found=norm_stmt(stmt) + ("" if ok else f" -- {why}"),
                           required=f"{M.qualname}.cache_clear() after the call on every normal exit",
                           what=f"the graph of a circuit changes but values memoised by {M.qualname} survive: an operation following this block keeps its old start time ({why})",
@@ -1017,6 +1055,9 @@ def _value_origin(f: FunctionInfo, evs, idx: int) -> Optional[str]:
         if hit is not None:
             call = hit.node
             d = next((n for n in ast.walk(f.node) if isinstance(n, ast.FunctionDef) and n.name == hit.term[1] and n is not f.node), None)
+            if d is None:
+                # a function of the module read in place (``install(method)`` doing the store for both the override and the restore)
+                d = next((n for n in f.module.tree.body if isinstance(n, ast.FunctionDef) and n.name == hit.term[1]), None)
             if d is not None:
                 params = [a.arg for a in d.args.posonlyargs + d.args.args]
                 if v.id in params:
